@@ -84,6 +84,8 @@ def cases(tier, seed):
             yield {"kind": "vnngp", "batch": bb, "seed": rnd.randrange(10**6)}
         for strat, (pb_, db_, zb_) in itertools.product(["VariationalStrategy", "UnwhitenedVariationalStrategy"], [([], [2], "none"), ([2], [2], "none"), ([2], [2], "batch"), ([], [3, 2], "none")]):
             yield {"kind": "svgp", "pbatch": pb_, "dbatch": db_, "zbatch": zb_, "strategy": strat, "dist": "CholeskyVariationalDistribution", "x_at_z": True, "seed": rnd.randrange(10**6)}
+        for strat, how, (pb_, zb_) in itertools.product(["VariationalStrategy", "UnwhitenedVariationalStrategy"], ["train", "load"], [([2], "none"), ([3, 2], "none"), ([2], "batch")]):
+            yield {"kind": "svgp", "pbatch": pb_, "dbatch": [], "zbatch": zb_, "strategy": strat, "dist": "CholeskyVariationalDistribution", "tied_first": how, "seed": rnd.randrange(10**6)}
         for T_, strat in itertools.product([2, 3], ["VariationalStrategy", "UnwhitenedVariationalStrategy"]):
             yield {"kind": "indep_mt", "T": T_, "strategy": strat, "seed": rnd.randrange(10**6)}
         for pb, db in (([2], [2]), ([], [3]), ([3], [3]), ([2], [3, 2])):
@@ -388,7 +390,23 @@ def _svgp(case, ctx, g):
         db = list(X.shape[:-2])
     m = _mk_svgp(pb, Z, case["strategy"], case["dist"])
     lik = gpytorch.likelihoods.GaussianLikelihood(batch_shape=torch.Size(pb))
-    util.randomize(m, g, 0.4)
+    if case.get("tied_first"):
+        # freshly constructed, every batch element still holds the same default hyper-parameters (and, un-batched Z, the same
+        # inducing points): evaluated once in that state, in both modes, before the elements diverge
+        with torch.no_grad():
+            m.eval()
+            m(X)
+            m.train()
+            m(X)
+            if case["tied_first"] == "load":
+                m.eval()
+                m(X)  # (the divergence then arrives through load_state_dict while in evaluation mode)
+    if case.get("tied_first") == "load":
+        m2_ = _mk_svgp(pb, Z, case["strategy"], case["dist"])
+        util.randomize(m2_, g, 0.4)
+        m.load_state_dict(m2_.state_dict())
+    else:
+        util.randomize(m, g, 0.4)
     util.randomize(lik, g, 0.4)
     if case.get("x_at_z"):
         Zm = m.variational_strategy.inducing_points.detach()  # (the inducing locations are parameters: moved by randomize)
